@@ -1587,23 +1587,23 @@ func (dsc *dataStoreCommand) lmove(srcKeyName, destKeyName string, srcLeft, dest
 		return
 	}
 
-	// remove the item from the source list
+	// pick the item to move
 	var item *listItem
 	if srcLeft {
 		item = srcList.head
-		dsc.lpopUnlocked(srcKeyName, srcList, item)
 	} else {
 		item = srcList.tail
-		dsc.rpopUnlocked(srcKeyName, srcList, item)
 	}
 	element := item.element
 
-	// place the item into the dest list
+	// place the element into the dest list first, then unlink the item from the source list: when source
+	// and destination are the same list it never becomes empty in between (which would delete the key)
 	if destLeft {
 		dsc.lpushUnlocked(destKeyName, destList, element)
 	} else {
 		dsc.rpushUnlocked(destKeyName, destList, element)
 	}
+	dsc.removeUnlocked(srcKeyName, srcList, item)
 	uk.elements = 1
 
 	output.data = respBulkString(element)
